@@ -1,5 +1,5 @@
 """C06 total API: Builtins.tla (signature table, allowed outcome classes) generates call descriptors over a
-41-value palette; the harness executes them on the real VM with crash/hang isolation.  Text entry points are
+42-value palette; the harness executes them on the real VM with crash/hang isolation.  Text entry points are
 exercised with generated texts and validated by Trace_API."""
 import json, os, subprocess, time
 import props, vlib
@@ -226,13 +226,13 @@ def c06(tier):
     rc = verdict.finish()
     vlib.write_evidence('C06', tier, 'exploration', {
         'evaluations': ncalls + ntext, 'distinct_nontrivial': ncalls,
-        'rule': 'TLC enumerates call descriptors (procedure x argument tuple over the 41-value palette): arities 0 and 1 '
+        'rule': 'TLC enumerates call descriptors (procedure x argument tuple over the 42-value palette): arities 0 and 1 '
                 'completely, arity 2 %s, arities 3-5 by stride; circular arguments only for the procedures that must cope with '
                 'them; each call is executed with crash/hang isolation and followed by a probe evaluation; plus %d generated '
                 'texts (random Unicode, token soup, mutated programs, nesting to 64) through scan/parse/eval_text/sliced '
                 'evaluation; distinct_nontrivial = number of distinct calls executed' % ('every 3rd' if q else 'completely', ntext),
         'samples': samples or [{'call': '(car zp1)'}], 'states': states, 'transitions': states,
-        'traces_validated_against_impl': ncalls + ntext, 'procedures': nprocs, 'palette': 41,
+        'traces_validated_against_impl': ncalls + ntext, 'procedures': nprocs, 'palette': 42,
         'outcome_classes_observed': by_class, 'outcomes_more_lenient_than_r7rs_prescribes(not_violations)': lenient, 'allowed_sets_required': by_allow, 'tiers': tiers, 'texts': ntext, 'macro_definition_use_pairs': macro_n, 'macro_pairs_with_panic_or_timeout': macro_bad, 'session_runs_through_the_evaluator': sess_runs,
     }, time.time() - t0, len(verdict.new), [
         'TLC/SANY/Json trusted', 'the signature table of Builtins.tla is my reading of R7RS section 6; procedures outside R7RS get the default signature',
